@@ -1,4 +1,4 @@
-From VP Require Import Base.Tactics Ctx.Model Ctx.Run Ctx.Proofs Ctx.ProofsRun Ctx.Props.
+From VP Require Import Base.Tactics Ctx.Model Ctx.Run Ctx.Proofs Ctx.ProofsLive Ctx.ProofsRun Ctx.Props.
 
 Check (C26_delivery : forall cfg sched s,
   mode cfg = Block -> run cfg init sched = Some s ->
@@ -19,6 +19,11 @@ Check (C26_delivery_trysend_refuted : exists cfg sched s,
   mode cfg = Drop /\ n_ctx cfg = 2 /\ cap cfg = 1 /\ run cfg init sched = Some s /\
   ~ (forall a b, a <> b -> recv_from a (g_recv (cs s b)) ++ inflight a (inbox (cs s b)) = sent_to b (g_sent (cs s a)))).
 Print Assumptions C26_delivery_trysend_refuted.
+
+Check (C26_no_deadlock_acyclic : forall cfg sched s c,
+  1 <= cap cfg -> ranked cfg -> run cfg init sched = Some s ->
+  c < n_ctx cfg -> has_work s c -> exists c', c' < n_ctx cfg /\ can_step cfg s c').
+Print Assumptions C26_no_deadlock_acyclic.
 
 Check (C26_macro_steps_are_schedules : forall cfg fuel ms s store os ls s' store',
   forallb (fun m => negb (is_restore m)) ms = true ->
